@@ -244,8 +244,10 @@ def finish(rep: Report, level="proof", technique=""):
         cov["rule"] = "; ".join(b.get("rule", "") for b in rep.bounded) or "n/a"
     ev = {"property_id": rep.pid, "tier": rep.tier, "seed": rep.seed, "level": level, "coverage": cov,
           "assumptions": rep.assumptions + rep.trusted, "wall_s": round(time.time() - rep.t0, 2), "violations": len(rep.violations)}
-    os.makedirs(os.path.join(VERIF, "evidence"), exist_ok=True)
-    with open(os.path.join(VERIF, "evidence", f"{rep.pid}.json"), "w") as f:
+    # evidence describes /repo; a run against a scratch tree (--repo, used for seeded changes) must not overwrite it
+    ev_dir = os.path.join(VERIF, "evidence") if os.path.realpath(rep.repo) == os.path.realpath(os.environ.get("VERIF_REPO", "/repo")) else os.path.join(VERIF, "replays", "_scratch_evidence")
+    os.makedirs(ev_dir, exist_ok=True)
+    with open(os.path.join(ev_dir, f"{rep.pid}.json"), "w") as f:
         json.dump(ev, f, indent=1, default=str)
     print(f"[{rep.pid}] tier={rep.tier} functions={len(rep.functions)} obligations={n_ob} discharged={n_dis} queries={rep.n_queries} "
           f"solver={rep.solver_time:.1f}s wall={time.time() - rep.t0:.1f}s bounded_blocks={len(rep.bounded)}")
